@@ -315,7 +315,7 @@ def cross(jobs: int = 16, only_neutral=(), only_break=()) -> int:
         if m.get("kind") == "neutral-refactor":
             if not only_neutral or any(name.startswith(o) for o in only_neutral):
                 neutrals.append(name)
-        elif m.get("property"):
+        elif m.get("property") and not m.get("outside"):       # (changes recorded as outside their property are not expected)
             if not only_break or any(name.startswith(o) for o in only_break):
                 breaks.append((name, m["property"]))
     tmp = tempfile.mkdtemp(prefix="vstatic-cross-")
